@@ -89,8 +89,10 @@ func TestVerifC10Persistence(t *testing.T) {
 func TestVerifC10ClientReuse(t *testing.T) {
 	vfOpen(t)
 	type vec struct {
-		Conn  string `json:"conn"`
-		Close bool   `json:"close"`
+		Conn    string `json:"conn"`
+		Close   bool   `json:"close"`
+		Status  int    `json:"status"`
+		Framing string `json:"framing"`
 	}
 	var vecs []vec
 	vfEachLine(t, os.Getenv("VERIF_IN2"), func(line []byte) {
@@ -103,6 +105,9 @@ func TestVerifC10ClientReuse(t *testing.T) {
 	evals := 0
 	for _, v := range vecs {
 		for _, ver := range []string{"1.1", "1.0", "1.1", "1.0"} {
+			if v.Framing == "chunked" && ver == "1.0" {
+				continue // chunked framing does not exist in HTTP/1.0
+			}
 			evals++
 			ln := fasthttputil.NewInmemoryListener()
 			var mu sync.Mutex
@@ -132,7 +137,16 @@ func TestVerifC10ClientReuse(t *testing.T) {
 							if v.Conn != "none" {
 								hdr = "Connection: " + v.Conn + "\r\n"
 							}
-							fmt.Fprintf(c, "HTTP/%s 200 OK\r\nContent-Length: 2\r\n%s\r\nok", ver, hdr)
+							switch v.Framing {
+							case "cl":
+								fmt.Fprintf(c, "HTTP/%s %d X\r\nContent-Length: 2\r\n%s\r\nok", ver, v.Status, hdr)
+							case "chunked":
+								fmt.Fprintf(c, "HTTP/%s %d X\r\nTransfer-Encoding: chunked\r\n%s\r\n2\r\nok\r\n0\r\n\r\n", ver, v.Status, hdr)
+							case "cl0":
+								fmt.Fprintf(c, "HTTP/%s %d X\r\nContent-Length: 0\r\n%s\r\n", ver, v.Status, hdr)
+							default: // no framing header at all (204 / 304)
+								fmt.Fprintf(c, "HTTP/%s %d X\r\n%s\r\n", ver, v.Status, hdr)
+							}
 						}
 					}()
 				}
@@ -169,15 +183,15 @@ func TestVerifC10ClientReuse(t *testing.T) {
 					reused = true
 				}
 			}
-			c := vfRec{"conn": v.Conn, "ver": ver, "streamed": streamed, "requests_per_connection": pc}
+			c := vfRec{"conn": v.Conn, "ver": ver, "status": v.Status, "framing": v.Framing, "streamed": streamed, "requests_per_connection": pc}
 			// an HTTP/1.0 response without keep-alive is also final (RFC 9112 9.3)
 			mustNotReuse := v.Close || (ver == "1.0" && !strings.Contains(strings.ToLower(v.Conn), "keep-alive"))
 			if mustNotReuse && reused {
-				vfViol(fmt.Sprintf("C10:client-reuse:HTTP/%s Connection=%q streamed=%v", ver, v.Conn, streamed),
+				vfViol(fmt.Sprintf("C10:client-reuse:HTTP/%s %d/%s Connection=%q streamed=%v", ver, v.Status, v.Framing, v.Conn, streamed),
 					fmt.Sprintf("HostClient sent another request on a connection whose response said close: %v", pc), c)
 			}
 			if !ok {
-				vfViol(fmt.Sprintf("C10:client-error:HTTP/%s Connection=%q", ver, v.Conn), "a request failed against a well-behaved server", c)
+				vfViol(fmt.Sprintf("C10:client-error:HTTP/%s %d/%s Connection=%q", ver, v.Status, v.Framing, v.Conn), "a request failed against a well-behaved server", c)
 			}
 			if evals <= 2 {
 				vfSample(c)
